@@ -163,6 +163,36 @@ MOTIFS = [
     [["new_space", "-", "A", None, []], ["set_ref", "A", "r", 5], ["new_cells", "A", "q", C(3)],
      ["new_cells", "A", "h", C(2, a="q", k=3)], ["new_space", "-", "O", None, []], ["new_cells", "O", "f", C(1)],
      ["new_space", "O", "X", None, ["A"]], ["new_cells", "O", "g", C(5, c="X", a="h")], ["new_space", "-", "T", 3, []]],
+    # SEVERAL parametrised parents choosing the same foreign base: S[a] and T[a] are instances with equal
+    # arguments under different parents; callers elsewhere hold values computed through both
+    [["new_space", "-", "O", None, []], ["new_cells", "O", "f", C(1)], ["new_cells", "O", "g", C(2, a="f", k=1)],
+     ["set_ref", "O", "r", 4], ["new_cells", "O", "h", C(3)], ["new_space", "O", "X", None, []],
+     ["new_cells", "O.X", "q", C(1)], ["new_space", "-", "S", 3, []], ["new_space", "-", "T", 3, []],
+     ["new_space", "-", "C", None, []], ["new_cells", "C", "c", IW.CALLER_SRC.format(s="S", a="g")],
+     ["new_cells", "C", "d", IW.CALLER_SRC.format(s="T", a="h")]],
+    # nested parametrised spaces queried with EQUAL arguments at both levels (S[a].X[a]); the nested one has a
+    # replicated child of its own
+    [["new_space", "-", "S", 0, []], ["new_cells", "S", "f", C(1)], ["new_space", "S", "X", 5, []],
+     ["new_cells", "S.X", "q", C(8)], ["new_cells", "S.X", "g", C(2, a="q", k=2)], ["set_ref", "S.X", "r", 6],
+     ["new_cells", "S.X", "h", C(3)], ["new_space", "S.X", "Z", None, []], ["new_cells", "S.X.Z", "q", C(0, k=4)]],
+    # two parents (one of them with two parameters, the default equal to the other's argument) choosing a foreign
+    # base that has a parametrised child: S[a].X[a], T[a, 2].X[a]
+    [["new_space", "-", "A", None, []], ["new_cells", "A", "f", C(1)], ["new_space", "-", "O", None, ["A"]],
+     ["new_cells", "O", "g", C(2, a="f", k=2)], ["set_ref", "O", "s", 1], ["new_cells", "O", "h", C(9, k=1)],
+     ["new_space", "O", "X", 5, []], ["new_cells", "O.X", "q", C(8)],
+     ["new_space", "-", "S", 3, []], ["new_space", "-", "T", 4, []]],
+    # TWO definers of one cells name: the parametrised space O derives f from A (first) and B; T chooses O as its
+    # base; no references anywhere - a base-order-changing edit (remove_bases, deleting the first definer's cells)
+    # re-points the EXISTING derived cells of O at the other definer in place
+    [["new_space", "-", "A", None, []], ["new_cells", "A", "f", C(0, k=1)], ["new_cells", "A", "g", C(2, a="f", k=1)],
+     ["new_space", "-", "B", None, []], ["new_cells", "B", "f", C(0, k=5)], ["new_cells", "B", "h", C(2, a="f", k=2)],
+     ["new_space", "-", "O", 0, ["A", "B"]], ["new_space", "-", "T", 3, []]],
+    # ... the first definer can also arrive later: O derives f from B through its bases P (empty) and B; adding A,
+    # which defines f as well, to P puts a new first definer in front of B; the replicated child X derives likewise
+    [["new_space", "-", "A", None, []], ["new_cells", "A", "f", C(0, k=1)], ["new_space", "-", "B", None, []],
+     ["new_cells", "B", "f", C(0, k=5)], ["new_cells", "B", "g", C(2, a="f", k=3)], ["new_space", "-", "P", None, []],
+     ["new_space", "-", "S", 0, ["P", "B"]], ["new_space", "S", "X", None, ["P", "B"]],
+     ["new_cells", "S", "h", C(5, c="X", a="g")]],
 ]
 CORE_MOTIFS = [0, 1, 2, 3, 4, 5, 6]       # inside the vocabulary the Lean model covers
 
@@ -314,7 +344,7 @@ def gen_next(rng, world, prev, wide):
         bases = []
         if wide and rng.random() < 0.4:
             # the new child derives its members from a plain space (or the child of one) elsewhere
-            cand = [p for p, sp in statics if p.split(".")[0] in ("A", "O") and p.split(".")[0] != path.split(".")[0]
+            cand = [p for p, sp in statics if p.split(".")[0] in ("A", "B", "O") and p.split(".")[0] != path.split(".")[0]
                     and IW.params_of(sp) is None]
             if cand:
                 bases = [rng.choice(cand)]
@@ -351,7 +381,7 @@ def gen_next(rng, world, prev, wide):
         if have:
             return ["del_mref", rng.choice(have)]
     if k == "add_bases":
-        cand = [p for p, sp in statics if "." not in p and p != path.split(".")[0] and p in ("A", "O", "S", "T")]
+        cand = [p for p, sp in statics if "." not in p and p != path.split(".")[0] and p in ("A", "B", "P", "O", "S", "T")]
         if cand and ("." not in path or rng.random() < 0.5):
             return ["add_bases", path, [rng.choice(cand)]]
         if "A" not in m.spaces:
@@ -1160,9 +1190,16 @@ def instance_queries(m):
                 q.append(["item", path, chain])
             for name, ch in base.spaces.items():
                 if IW.params_of(ch):
-                    c2 = chain + [["attr", name], ["idx", [3]]]
-                    fc2 = first_cells(ch)
-                    q.append(["eval", path, c2 + [["attr", n] for n in fc2[0]], fc2[1], 1] if fc2 else ["item", path, c2])
+                    # a nested instance under the SAME argument as the outer instance (a = 1) / under another one
+                    for b in ((a,) if a == 1 else (3,)):
+                        c2 = chain + [["attr", name], ["idx", [b]]]
+                        fc2 = first_cells(ch)
+                        q.append(["eval", path, c2 + [["attr", n] for n in fc2[0]], fc2[1], 1] if fc2 else ["item", path, c2])
+    # callers in a plain space that create instances from inside their formulas hold values computed through them
+    if "C" in m.spaces:
+        for cn in m.spaces["C"].cells:
+            for a in (1, 2):
+                q.append(["evalstatic", "C", cn, a])
     return q
 
 
@@ -1233,6 +1270,33 @@ def single_edits(m):
 PF_IDX = IW.PF_BY_SRC
 
 
+def repointing_edits(m, edits):
+    """the base-adding edits (of a `single_edits` list) that can change the FIRST definer of a member some space
+    already derives: the added base (or a space it derives from) has a cells / reference name that the edited space
+    or a space deriving from it already has as a DERIVED member.  The existing derived member is then re-pointed in
+    place (nothing is created or deleted), which is the case in which everything built from it has to be told."""
+    out = []
+    statics = dict(IW.all_static(m))
+    for e in edits:
+        if e[0] != "add_bases":
+            continue
+        try:
+            target = statics[e[1]]
+            names = set()
+            for b in e[2]:
+                names |= set(statics[b].cells) | set(statics[b]._own_refs)
+            subs = [target] + [sp for sp in statics.values() if any(x is target for x in sp.bases)]
+            derived = set()
+            for sp in subs:
+                derived |= {n for n, c in sp.cells.items() if c._is_derived()}
+                derived |= {n for n in sp._own_refs if sp._impl.own_refs[n].is_derived()}
+            if names & derived:
+                out.append(e)
+        except Exception:
+            continue
+    return out
+
+
 def enumerate_edits(ctx, out, stats, motifs=None, per_motif=8):
     for mi, mo in enumerate(MOTIFS):
         if motifs is not None and mi not in motifs:
@@ -1245,6 +1309,7 @@ def enumerate_edits(ctx, out, stats, motifs=None, per_motif=8):
                 w.apply(op)
             queries = instance_queries(w.m)
             edits = single_edits(w.m)
+            repoint = repointing_edits(w.m, edits)
         except core.Infra:
             raise
         except Exception as e:
@@ -1260,9 +1325,11 @@ def enumerate_edits(ctx, out, stats, motifs=None, per_motif=8):
         if ctx.tier == "thorough":
             chosen = edits
         else:
-            always = [e for e in edits if e[0] in DELETIONS]
-            rest = [e for e in edits if e[0] not in DELETIONS]
-            chosen = always + rng.sample(rest, min(len(rest), per_motif))
+            always = [e for e in edits if e[0] in DELETIONS or e in repoint]
+            rest = [e for e in edits if e not in always]
+            # (the motifs with several parents / nested instances are the expensive ones: a smaller sample there)
+            chosen = always + rng.sample(rest, min(len(rest), per_motif if mi < 13 else per_motif // 2))
+            stats["enumerated_repointing_add_bases"] += len(repoint)
         for e in chosen:
             ops = [json.loads(json.dumps(o)) for o in prefix + queries + [e] + queries]
             sub = core.Outcome()
